@@ -297,6 +297,10 @@ func matchCase(t *engine.T, cur []variant, pv variant, idNames []string) *engine
 	return nil
 }
 
+// purl values of the lookup alphabet: two well-formed ones and near misses of "pkg:<type>/" (no scheme, type as a
+// prefix of a longer type, upper-case scheme, the legacy "pkg:/type/" spelling, type only).
+var lookupPurls = []string{"", p1, p2, "apk/wolfi/x@1", "/apk/wolfi/x@1", "pkg:apkx/wolfi/x@1", "PKG:apk/wolfi/x@1", "pkg:/apk/wolfi/x@1", "pkg:apk", "xpkg:apk/w/x@1", "pkg:deb"}
+
 // lookups: plain lookups against a filter over the list.
 func lookups(c *engine.Ctx, idNames []string) {
 	c.Group("lookups")
@@ -311,8 +315,11 @@ func lookups(c *engine.Ctx, idNames []string) {
 	}
 	var nvs []nodeV
 	for nm := 0; nm < 3; nm++ {
-		for pu := 0; pu < 3; pu++ {
+		for pu := 0; pu < len(lookupPurls); pu++ {
 			for cp := 0; cp < 4; cp++ {
+				if pu >= 3 && (cp != 0 || nm != 1) {
+					continue // the near-miss purls vary alone
+				}
 				for _, f := range []bool{false, true} {
 					nvs = append(nvs, nodeV{Name: nm, Purl: pu, Cpe: cp, File: f, Git: cp == 3})
 				}
@@ -328,7 +335,7 @@ func lookups(c *engine.Ctx, idNames []string) {
 			n.Identifiers = map[int32]string{}
 		}
 		if v.Purl != 0 {
-			n.Identifiers[int32(sbom.SoftwareIdentifierType_PURL)] = []string{"", p1, p2}[v.Purl]
+			n.Identifiers[int32(sbom.SoftwareIdentifierType_PURL)] = lookupPurls[v.Purl]
 		}
 		if v.Cpe&1 != 0 {
 			n.Identifiers[int32(sbom.SoftwareIdentifierType_CPE22)] = "V"
